@@ -1010,6 +1010,33 @@ impl Suite for WireSuite {
                     }
                 }
             }
+            if ctx.prop == "C06" || ctx.prop == "C02" {
+                // multi-megabyte messages (only for the two properties that speak about oversized messages;
+                // each costs the model driver about half a minute)
+                let good = serde_json::to_vec(&json!({"method":"org.varlink.service.GetInfo","parameters":{"token":"t1z"}})).unwrap();
+                // (a) one malformed message > 4 MiB whose tail would parse as a request on its own
+                let mut big: Vec<u8> = std::iter::repeat(b'j').take(4 * 1024 * 1024 + 4096).collect();
+                big.extend(std::iter::repeat(b' ').take(64 * 1024));
+                big.extend_from_slice(&good);
+                let mut total = good.clone();
+                total.push(0);
+                total.extend_from_slice(&big);
+                total.push(0);
+                total.extend_from_slice(&good);
+                total.push(0);
+                cases.push(Case { input: mk_case("whole", &cfgs[0], &[total.clone()], &total), tags: vec!["oversize:malformed-4MiB".into()] });
+                // (b) a well-formed request of 4.5 MB between two ordinary ones, fed in 64 KiB chunks
+                let pad = "x".repeat(4_500_000);
+                let bigreq = serde_json::to_vec(&json!({"method":"org.varlink.service.GetInfo","parameters":{"pad":pad,"token":"t2z"}})).unwrap();
+                let mut total = good.clone();
+                total.push(0);
+                total.extend_from_slice(&bigreq);
+                total.push(0);
+                total.extend_from_slice(&good);
+                total.push(0);
+                let chunks: Vec<Vec<u8>> = total.chunks(65536).map(|c| c.to_vec()).collect();
+                cases.push(Case { input: mk_case("feed", &cfgs[0], &chunks, &total), tags: vec!["oversize:valid-4.5MB".into()] });
+            }
             // hostile nesting depths around and far beyond serde_json's recursion limit
             for d in [127usize, 128, 129, 1000, 10000] {
                 let mut s = String::from("{\"method\":\"org.varlink.service.GetInfo\",\"parameters\":");
